@@ -46,3 +46,45 @@ MUTANTS = [
         (FPU, "                self.register.set_mxcsr(self.saved_state)\n",
               "                self.register._depth -= 1\n                if self.register._depth < 3:\n                    self.register.set_mxcsr(self.saved_state)\n")]),
 ]
+
+EXPR = "functional_algorithms/expr.py"
+CTX = "functional_algorithms/context.py"
+TYP = "functional_algorithms/typesystem.py"
+T_EXPR = ["functional_algorithms/tests/test_expr.py", "functional_algorithms/tests/test_functional_algorithms.py", "functional_algorithms/tests/test_context.py"]
+
+MUTANTS += [
+    dict(prop="C07", name="revert-fix-sign-of-zero-in-constant-key", tests=T_EXPR, edits=[(EXPR,
+        "(value, type(value).__name__, _sign_of_zero(value))", "(value, type(value).__name__)")]),
+    dict(prop="C07", name="two-level-intkey-drops-operand-kind", tests=T_EXPR, edits=[(EXPR,
+        "        return (self.kind, *(op.intkey for op in self.operands))\n",
+        "        return (*(op.intkey for op in self.operands),)\n"),
+        (EXPR, "            return (self.kind, self.intkey)\n", "            return (self.intkey,)\n")]),
+    dict(prop="C07", name="operations-keyed-by-first-two-operands", tests=T_EXPR, edits=[(EXPR,
+        "            r = (self.kind, *(operand._two_level_intkey for operand in self.operands))\n",
+        "            r = (self.kind, *(operand._two_level_intkey for operand in self.operands[:2]))\n")]),
+    dict(prop="C07", name="constant-key-drops-type-name", tests=T_EXPR, edits=[(EXPR,
+        "(value, type(value).__name__, _sign_of_zero(value))", "(value, _sign_of_zero(value))")]),
+    dict(prop="C07", name="constant-key-drops-like", tests=T_EXPR, edits=[(EXPR,
+        "                like.key,\n            )\n", "            )\n")]),
+    dict(prop="C07", name="symbol-key-drops-type", tests=T_EXPR, edits=[(EXPR,
+        "            r = (self.kind, *self.operands)\n", "            r = (self.kind, self.operands[0])\n")]),
+    dict(prop="C07", name="register-inserts-before-assigning-id", tests=T_EXPR, edits=[(CTX,
+        "            expr._set_serialized_id(self._expression_counter)\n            self._expression_counter += 1\n\n            prev = self._expressions[expr.key] = expr\n",
+        "            prev = self._expressions[expr.key] = expr\n            expr._set_serialized_id(self._expression_counter)\n            self._expression_counter += 1\n")]),
+    dict(prop="C07", name="table-keyed-by-hash-of-key-mod", tests=T_EXPR, edits=[
+        (CTX, "        prev = self._expressions.get(expr.key)\n", "        prev = self._expressions.get(hash(expr.key) % 4093)\n"),
+        (CTX, "            prev = self._expressions[expr.key] = expr\n", "            prev = self._expressions[hash(expr.key) % 4093] = expr\n")]),
+    dict(prop="C07", name="type-eq-ignores-bits", tests=T_EXPR, edits=[(TYP,
+        "            return self.context is other.context and self.kind == other.kind and self.param == other.param\n",
+        "            return self.context is other.context and self.kind == other.kind\n"),
+        (TYP, "        return hash((self.kind, self.param))\n", "        return hash(self.kind)\n")]),
+    dict(prop="C07", name="counter-not-advanced-after-64", tests=T_EXPR, edits=[(CTX,
+        "            self._expression_counter += 1\n", "            self._expression_counter += 1 if self._expression_counter != 200 else 0\n")]),
+    dict(prop="C07", name="commutative-add-key-sorted", tests=T_EXPR, edits=[(EXPR,
+        "            r = (self.kind, *(operand._two_level_intkey for operand in self.operands))\n",
+        "            ks = [operand._two_level_intkey for operand in self.operands]\n            r = (self.kind, *(sorted(ks) if self.kind == 'subtract' else ks))\n")]),
+    dict(prop="C07", name="int-and-bool-constants-share-key", tests=T_EXPR, edits=[(EXPR,
+        "(value, type(value).__name__, _sign_of_zero(value))", "(value, type(value).__name__.replace('bool', 'int'), _sign_of_zero(value))")]),
+    dict(prop="C07", name="numpy-float64-and-float-share-key", tests=T_EXPR, edits=[(EXPR,
+        "(value, type(value).__name__, _sign_of_zero(value))", "(value, type(value).__name__.replace('float64', 'float'), _sign_of_zero(value))")]),
+]
